@@ -152,5 +152,32 @@ func H_C02M() {
 			vScanCheck(db, c, snaps[x], &ghosts[x], "snapshot content equals the reference set at its creation")
 		}
 	}
+	if vBound("closeall") == 1 {
+		// C06 clause: once every snapshot is closed and the collector has run, exactly the live items remain linked
+		// and the statistics say so (a version born and deleted inside one epoch must be gone at once, whatever
+		// older versions of its key are still around)
+		lastSn := snaps[E-1].sn
+		for x := 0; x < E; x++ {
+			snaps[x].Close()
+		}
+		vQuiesce()
+		db.GC()
+		vQuiesce()
+		m := vStoreWalk(db)
+		vAssert(m.nodes == model.count(), "completeness: only live items remain linked once every snapshot is closed")
+		vAssert(m.dead == 0, "completeness: no dead version remains linked")
+		st := db.aggrStoreStats()
+		vAssert(st.NodeCount == model.count(), "node_count equals live items")
+		vAssert(vDistOK(&st, &m), "per-level node counts equal the walk")
+		vAssert(st.SoftDeletes == 0, "soft_deletes is zero at quiescence")
+		vAssert(db.MemoryInUse() == m.mem, "MemoryInUse equals what the live items account for")
+		vAssert(db.GetLastGCSn() == lastSn, "collector advanced to the last closed snapshot")
+		if c.mm {
+			vAssert(st.NodeAllocs-st.NodeFrees == int64(model.count()), "allocations minus frees equals live nodes")
+			db.Close()
+			vAssert(vLiveBlocks() == 0, "every allocated block was returned by Close")
+		}
+		vReach("c02m-closed-all")
+	}
 	vReach("c02m-done")
 }
